@@ -10,7 +10,8 @@ RULE = ("Triple/Quad/Graph streams of both term encoders are driven statement by
         "catch-and-continue loop; at EVERY position of the sequence and EVERY slot (s, p, o, g, nested in a quoted triple) one "
         "statement is made unencodable by each cause (unsupported term object, typed literal while the datatype table is "
         "disabled, statement tuple too short, a string protobuf cannot encode); the statements that follow re-use the rejected "
-        "statement's IRIs and repeat the terms of its already-encoded slots. Oracle: either every later call raises and the "
+        "statement's IRIs and repeat the terms of its already-encoded slots; in one case in five the caller also declares a namespace "
+        "sharing an IRI of the rejected statement right after the rejection. Oracle: either every later call raises and the "
         "bytes (incl. a final manual flush) are a valid stream that decodes to the statements accepted before the failure, "
         "or the bytes decode (reference decoder with lenient graph bracketing, and pyjelly's own parser) to exactly the "
         "accepted statements in order; frames handed out before the failure decode to a prefix. Non-trivial: the rejection "
@@ -86,8 +87,11 @@ def _wrap(integ, terms):
     return tuple(terms)
 
 
-def drive(integ: str, cfg: dict, stmts: list, fault_at: int, fault):
-    """Catch-and-continue loop. -> dict(accepted, outcomes, frames (bytes), frames_before_failure)"""
+def drive(integ: str, cfg: dict, stmts: list, fault_at: int, fault, ns_after=None):
+    """Catch-and-continue loop. -> dict(accepted, outcomes, frames (bytes), frames_before_failure)
+
+    ns_after = (prefix, iri): right after the faulty statement the caller also declares a namespace on the same stream
+    (what re-entering stream_frames with declarations enabled does)."""
     stream = pj.make_stream({"integration": integ, "physical": cfg["physical"]}, pj.make_options(cfg))
     stream.enroll()
     phys = cfg["physical"]
@@ -130,6 +134,13 @@ def drive(integ: str, cfg: dict, stmts: list, fault_at: int, fault):
             outcomes.append(("ok", None))
         except Exception as e:  # noqa: BLE001 - catch-and-continue is the scenario
             outcomes.append(("raised", type(e).__name__))
+        if i == fault_at and ns_after is not None:
+            try:
+                stream.namespace_declaration(ns_after[0], ns_after[1])
+                accepted.append(("ns", ns_after[0], ns_after[1]))
+                outcomes.append(("ok", "ns"))
+            except Exception as e:  # noqa: BLE001
+                outcomes.append(("raised", type(e).__name__))
         i += 1
     try:
         got(stream.flow.to_stream_frame())
@@ -144,9 +155,9 @@ def decode_frames(frames: list):
     return data, refdec.decode(wire.dec_stream(data, True), strict_graphs=False)
 
 
-def judge(integ: str, cfg: dict, stmts: list, fault_at: int, fault):
+def judge(integ: str, cfg: dict, stmts: list, fault_at: int, fault, ns_after=None):
     """-> (witness or None, info)"""
-    run = drive(integ, cfg, stmts, fault_at, fault)
+    run = drive(integ, cfg, stmts, fault_at, fault, ns_after)
     out = run["outcomes"]
     info = {"rejected": out[fault_at][0] == "raised" if fault_at < len(out) else False,
             "later_calls": len(out) - fault_at - 1}
@@ -159,7 +170,8 @@ def judge(integ: str, cfg: dict, stmts: list, fault_at: int, fault):
     later = [o for o in out[fault_at + 1:] if o[0] in ("ok", "raised")]
     refused = bool(later) and all(o[0] == "raised" for o in later)
     info["refused"] = refused
-    accepted = [T.norm_stmt(s) for s in run["accepted"]]
+    accepted_events = [x if x and x[0] == "ns" else ("stmt", T.norm_stmt(x)) for x in run["accepted"]]
+    accepted = [e[1] for e in accepted_events if e[0] == "stmt"]
     base = {"accepted_n": len(accepted), "outcomes": [o[0] + (":" + o[1] if o[1] else "") for o in out][:40]}
     # everything produced
     try:
@@ -170,6 +182,12 @@ def judge(integ: str, cfg: dict, stmts: list, fault_at: int, fault):
         return {**base, "clause": "output-invalid", "refused": refused, "bytes": data.hex(),
                 "summary": f"after a rejected statement ({fault[2]} in slot {fault[0]}) the bytes produced are not a valid "
                            f"stream: {res.violation}"}, info
+    got_events = [T.norm_event(e) for e in res.events]
+    if ns_after is not None and [e for e in got_events if e[0] == "ns"] != [e for e in accepted_events if e[0] == "ns"]:
+        return {**base, "clause": "decoded-differs-from-accepted", "refused": refused, "bytes": data.hex(),
+                "summary": f"after a rejected statement ({fault[2]} in slot {fault[0]} at position {fault_at}) a namespace declaration "
+                           f"was accepted, but it decodes to {[e for e in got_events if e[0] == 'ns']} instead of "
+                           f"{[e for e in accepted_events if e[0] == 'ns']}"}, info
     got = [T.norm_stmt(s) for s in res.statements]
     if got != accepted:
         i = next((k for k, (a, b) in enumerate(zip(got, accepted)) if a != b), min(len(got), len(accepted)))
@@ -236,8 +254,15 @@ def run_case(ctx, rng):
         if pos + 1 < n:
             seq[pos + 1] = stmts[pos]
         for fault in fault_sites(integ, phys, stmts[pos], dt_disabled):
+            ns_after = None
+            if rng.random() < .2:
+                # the caller goes on to declare a namespace that shares prefix/name with an IRI of the rejected statement
+                iris = [t[1] for top in stmts[pos] for t in T.iter_terms(top) if t[0] == "iri"]
+                if iris:
+                    ns_after = ("nsx", rng.choice(iris))
+            cfg_run = dict(cfg, ns=True) if ns_after else cfg
             try:
-                w, info = judge(integ, cfg, seq, pos, fault)
+                w, info = judge(integ, cfg_run, seq, pos, fault, ns_after)
             except Exception as e:  # noqa: BLE001
                 ctx.inconc(f"harness error in C20 judge: {type(e).__name__}: {e}")
                 continue
@@ -259,8 +284,10 @@ def run_case(ctx, rng):
                 ctx.observe("continued-after-rejection-or-refused")
                 ctx.observe("stream-refused-further-use" if info.get("refused") else "stream-continued")
             if w is not None:
-                w.update({"integration": integ, "cfg": cfg, "stmts": T.to_json(seq), "fault_at": pos,
-                          "fault": list(fault), "partial": partial})
+                w.update({"integration": integ, "cfg": cfg_run, "stmts": T.to_json(seq), "fault_at": pos,
+                          "fault": list(fault), "partial": partial, "ns_after": list(ns_after) if ns_after else None})
+                if ns_after:
+                    ctx.observe("violations-with-namespace-declaration-after-rejection")
                 ctx.violation(w)
             ctx.case((integ, sorted(cfg.items()), seq, pos, fault), partial,
                      sample={"integration": integ, "physical": phys, "cause": fault[2], "slot": "spog"[fault[0]],
@@ -287,7 +314,8 @@ def replay(w: dict):
     cfg["preset"] = tuple(cfg["preset"])
     stmts = list(T.from_json(w["stmts"]))
     f = w["fault"]
-    r, _info = judge(w["integration"], cfg, stmts, w["fault_at"], (f[0], f[1], f[2]))
+    r, _info = judge(w["integration"], cfg, stmts, w["fault_at"], (f[0], f[1], f[2]),
+                     tuple(w["ns_after"]) if w.get("ns_after") else None)
     return r
 
 
